@@ -195,8 +195,11 @@ def classify(name, cfg, a, b, s, e):
 HOST_DEPENDENT_MODULES = {'errno', 'signal', 'socket', 'os', 'sys', 'platform', 'locale', 'time', 'getpass', 'pwd', 'grp', 'resource',
                           'termios', 'fcntl', 'select', 'tempfile', 'shutil', 'subprocess', 'multiprocessing', 'threading', 'random',
                           'secrets', 'uuid1', 'ssl', 'mmap', 'sysconfig', 'site', 'posix', 'stat', 'tty', 'curses', 'readline', 'selectors',
-                          'asyncio', 'getopt', 'gettext', 'calendar', 'zoneinfo', 'posixpath', 'ntpath', 'glob', 'fnmatch', 'io_uring'}
-MODELLED = {('trace_handlers/bsd.py', 'errno'), ('trace_handlers/bsd.py', 'signal'), ('trace_handlers/bsd.py', 'socket')}
+                          'asyncio', 'getopt', 'gettext', 'calendar', 'zoneinfo', 'posixpath', 'ntpath', 'glob', 'fnmatch', 'io_uring',
+                          'pathlib'}          # pathlib: PurePath / Path take a text apart by the HOST's path flavour
+# pathlib in trace_codes.py locates and opens code-table FILES of the host (modelled by the host-files / directory-order children); a use on
+# text that comes from a dump is not
+MODELLED = {('trace_handlers/bsd.py', 'errno'), ('trace_handlers/bsd.py', 'signal'), ('trace_handlers/bsd.py', 'socket'), ('trace_codes.py', 'pathlib')}
 
 
 def import_scan():
@@ -469,8 +472,11 @@ from mc import ev as E
 from pykdebugparser.pykdebugparser import PyKdebugParser
 logs = B.v3_block(B.TAG_LOG_EVENTS, B.bplist({'Events': [
     {'cm': 1, 't': 'logEvent', 's': 1, 'tid': 1, 'ns': 5, 'mct': 6, 'b': b'B' * 16, 'piu': b'P' * 16,
-     'ud': {'sec': 1600000000, 'usec': 7}, 'utz': {'mw': 0, 'dt': 0}, 'p': 2, 'pid': 10}]}))
-sidx = B.v3_block(B.TAG_LOG_STRINGS, B.bplist({'StringIndex': {'hello': 1, 'proc': 2}}))
+     'ud': {'sec': 1600000000, 'usec': 7}, 'utz': {'mw': 0, 'dt': 0}, 'p': 2, 'pid': 10},
+    # a record that carries image paths (a backslash and a drive-like prefix in them) but no process / sender name
+    {'cm': 1, 't': 'logEvent', 's': 2, 'tid': 9, 'ns': 5, 'mct': 7, 'b': b'B' * 16, 'piu': b'P' * 16,
+     'ud': {'sec': 1600000000, 'usec': 8}, 'utz': {'mw': 0, 'dt': 0}, 'pip': 3, 'sip': 4, 'pid': 45}]}))
+sidx = B.v3_block(B.TAG_LOG_STRINGS, B.bplist({'StringIndex': {'hello': 1, 'proc': 2, '/private/var/Notes\\Tasks.app/Notes\\Tasks': 3, 'C:/usr/lib\\x.dylib': 4}}))
 recs = [B.rec(1000, (0, 0, 0, 0), 1, E.n2i('BSC_getpid') | 1), B.rec(2000, (0, 5, 0, 0), 1, E.n2i('BSC_getpid') | 2),
         B.rec(3000, (0x8, 7, 0, 0), 1, E.n2i('PERF_Event') | 1), B.rec(3001, (1, 1, 0, 0), 1, E.n2i('PERF_STK_UHdr')),
         B.rec(3002, (0x1010, 0, 0, 0), 1, E.n2i('PERF_STK_UData')), B.rec(3003, (0, 0, 0, 0), 1, E.n2i('PERF_Event') | 2)]
@@ -505,7 +511,7 @@ def judge_host_environment():
             'piped-interpreter-flags--bb--W-error': {'VERIF_INTERPRETER_FLAGS': '-bb -W error'}}
     seen = {}
     for label, extra in envs.items():
-        env = {k: v for k, v in os.environ.items() if k not in ('TERM', 'NO_COLOR', 'FORCE_COLOR', 'ANSI_COLORS_DISABLED', 'CLICOLOR', 'CLICOLOR_FORCE', 'COLUMNS', 'LINES', 'COLORTERM')}
+        env = {k: v for k, v in os.environ.items() if k not in ('TERM', 'NO_COLOR', 'FORCE_COLOR', 'ANSI_COLORS_DISABLED', 'CLICOLOR', 'CLICOLOR_FORCE', 'COLUMNS', 'LINES', 'COLORTERM', 'VERIF_PATH_FLAVOUR')}
         env.update(extra)
         r, w = os.pipe()
         env['VERIF_OUT_FD'] = str(w)
